@@ -13,14 +13,16 @@ REG.inline_ok |= {
     'sqlparse.engine.statement_splitter.StatementSplitter.__init__',
 }
 
-FLAGS = ('_in_declare', '_in_case', '_is_create')
+FLAGS = ('_in_declare', '_is_create')
+_NAMED_VIDS = {}
+CASES = 'STACKID(self._case_levels)'          # identity of the abstract value of the stack of open CASE blocks
 
 
 def make_splitter(ex, st, tokens=None, sfx=''):
     """a StatementSplitter object in an arbitrary state (flags/booleans, depth and level integers)"""
     from sqlparse.engine.statement_splitter import StatementSplitter
     f = {'__class__': StatementSplitter,
-         '_in_declare': SBool(z3.Bool('s_in_declare' + sfx)), '_in_case': SInt(z3.Int('s_in_case' + sfx)),
+         '_in_declare': SBool(z3.Bool('s_in_declare' + sfx)),
          '_in_loop_header': SBool(z3.Bool('s_in_loop_header' + sfx)),
          '_in_ddl': SBool(z3.Bool('s_in_ddl' + sfx)),
          '_is_create': SBool(z3.Bool('s_is_create' + sfx)), '_begin_depth': SInt(z3.Int('s_begin_depth' + sfx)),
@@ -36,6 +38,16 @@ def make_splitter(ex, st, tokens=None, sfx=''):
                 if isinstance(t, _ast.Attribute) and isinstance(t.value, _ast.Name) and t.value.id == 'self' \
                         and t.attr not in f and t.attr != 'tokens':
                     c = n.value.value if isinstance(n.value, _ast.Constant) else Ellipsis
+                    if isinstance(n.value, _ast.List) and not n.value.elts:
+                        # a list that _reset() empties and the transition code uses as a stack of ints (append / pop /
+                        # [-1]): an abstract integer stack in an arbitrary state; the same name gives the same abstract
+                        # value (the second object of a two-run contract starts in the same state)
+                        from pyvc.symex import new_istack
+                        key = 's' + t.attr + sfx
+                        stk = new_istack(ex, st, key, length=z3.Int(key + '_len'), top=z3.Int(key + '_top'))
+                        st.objs[stk.oid]['vid'] = _NAMED_VIDS.setdefault(key, st.objs[stk.oid]['vid'])
+                        f[t.attr] = stk
+                        continue
                     if isinstance(c, bool):
                         f[t.attr] = SBool(z3.Bool('s_' + t.attr + sfx))
                     elif isinstance(c, int):
@@ -44,7 +56,6 @@ def make_splitter(ex, st, tokens=None, sfx=''):
                         f[t.attr] = Opaque('splitter-field:' + t.attr)
     f['tokens'] = tokens if tokens is not None else ex.new_list(st, [('seg', 'TOK0' + sfx, z3.IntVal(0), z3.Int('s_ntok' + sfx))])
     st.assume(z3.Int('s_ntok' + sfx) >= 0)
-    st.assume(z3.Int('s_in_case' + sfx) >= 0)
     return ex.new_obj(st, 'StatementSplitter', f)
 
 
@@ -86,7 +97,7 @@ class csl_opaque:
     params = {'self': make_splitter, 'ttype': 'tt', 'value': 'str'}
     requires = ['ttype not in T.Keyword', 'ttype is not T.Punctuation']
     ensures = ['result == 0',
-               'self._in_declare == old(self._in_declare)', 'self._in_case == old(self._in_case)',
+               'self._in_declare == old(self._in_declare)', CASES + ' == old(' + CASES + ')',
                'self._is_create == old(self._is_create)', 'self._begin_depth == old(self._begin_depth)',
                'self.level == old(self.level)', 'self.consume_ws == old(self.consume_ws)',
                'self._in_loop_header == old(self._in_loop_header)', 'self._in_ddl == old(self._in_ddl)']
@@ -100,7 +111,7 @@ class csl_punct:
     params = {'self': make_splitter, 'ttype': lambda ex, st: ex.W.T.Punctuation, 'value': 'str'}
     requires = []
     ensures = ["result == (1 if value == '(' else (-1 if value == ')' else 0))",
-               'self._in_declare == old(self._in_declare)', 'self._in_case == old(self._in_case)',
+               'self._in_declare == old(self._in_declare)', CASES + ' == old(' + CASES + ')',
                'self._is_create == old(self._is_create)', 'self._begin_depth == old(self._begin_depth)',
                'self.level == old(self.level)']
     raises = []
@@ -118,8 +129,10 @@ class csl_total:
     serves = ['C02', 'C04', 'C07']
 
 
-INV = ['self._begin_depth >= 0', 'self._in_case >= 0',
-       '(self._is_create and self._begin_depth >= 1) if self._in_case > 0 else True',
+INV = ['self._begin_depth >= 0', 'len(self._case_levels) >= 0',
+       # (a CASE is only recorded inside CREATE; how the recorded levels relate to the current level is a fact about the
+       #  loop body of process - the level is updated there - and is part of the context families of the grammar induction)
+       'self._is_create if len(self._case_levels) > 0 else True',
        'self._is_create if self._in_declare else True']
 
 
@@ -160,7 +173,7 @@ class csl_spelling:
     requires = ['ttype in T.Keyword']
     post_bind = {'R2': 'SELF2._change_splitlevel(ttype, OTHER)'}
     ensures = ['result == -1 or result == 0 or result == 1', 'result == R2',
-               'self._in_declare == SELF2._in_declare', 'self._in_case == SELF2._in_case',
+               'self._in_declare == SELF2._in_declare', CASES + ' == STACKID(SELF2._case_levels)',
                'self._is_create == SELF2._is_create', 'self._begin_depth == SELF2._begin_depth',
                'self._in_loop_header == SELF2._in_loop_header', 'self._in_ddl == SELF2._in_ddl',
                'self.level == SELF2.level',
